@@ -457,7 +457,17 @@ def run_generic(case, ctx):
     sds = pym.Signal("ds", ds0)
     szs = net.append(pym.MakeComplex([scs, sds]))
     sab = net.append(pym.ComplexNorm(szs))
-    srp = net.append(pym.RealPart(szs))
+    if "ReScale" not in _USER:
+        class PmvReScale(pym.Module):
+            """user module y = 2.5 Re(z); its sensitivity is real-typed although z is complex (a Python float)"""
+
+            def _response(self, z):
+                return 2.5 * float(np.real(z))
+
+            def _sensitivity(self, dy):
+                return 2.5 * float(np.real(dy))
+        _USER["ReScale"] = PmvReScale
+    srp = net.append(_USER["ReScale"](szs))
     with warnings.catch_warnings():
         warnings.simplefilter("ignore")
         net.response()
@@ -505,7 +515,7 @@ def run_generic(case, ctx):
             return (w[0] * dot if which[0] else 0.0) + (w[1] * sc_ if which[1] else 0.0) + \
                 (w[2] * (b @ e @ b) if which[2] else 0.0) + (w[3] * np.sum(W0 * (e @ e)) if which[3] else 0.0) + \
                 (w[4] * np.sum(Wd0 * d[:, cols]) if which[4] else 0.0) + \
-                (w[5] * np.sqrt(c * c + ds * ds) if which[5] else 0.0) + (w[6] * c if which[6] else 0.0)
+                (w[5] * np.sqrt(c * c + ds * ds) if which[5] else 0.0) + (w[6] * 2.5 * c if which[6] else 0.0)
         vd = rng.standard_normal((2, 3))
         ve = rng.standard_normal((n, n))
         vds = float(rng.standard_normal())
@@ -518,6 +528,9 @@ def run_generic(case, ctx):
         if not err <= 1e-9:
             raise Violation("total-derivative-mismatch/generic-template", backprop=an, exact=ref, err=err, seeded=which)
     return {"key": f"generic/{n}/{which}", "nontrivial": True, "obs": {"err": worst}}
+
+
+_USER = {}
 
 
 def run_case(case, ctx):
